@@ -143,24 +143,36 @@ func Solve(file string, timeoutS int, wantModel bool) SolveResult {
 // scratch directory management
 var scratchDir string
 
+var scratchOnce sync.Once
+
 func Scratch() string {
-	if scratchDir == "" {
+	scratchOnce.Do(func() {
 		base := os.Getenv("GOVC_SCRATCH")
 		if base == "" {
 			base = "/var/tmp"
+		}
+		// scratch directories of runs that were killed (older than six hours) are removed
+		if ents, err := os.ReadDir(base); err == nil {
+			for _, e := range ents {
+				if info, err := e.Info(); err == nil && strings.HasPrefix(e.Name(), "govc-") && time.Since(info.ModTime()) > 6*time.Hour {
+					os.RemoveAll(filepath.Join(base, e.Name()))
+				}
+			}
 		}
 		d, err := os.MkdirTemp(base, "govc-")
 		if err != nil {
 			panic(err)
 		}
 		scratchDir = d
-	}
+	})
 	return scratchDir
 }
 
 func CleanScratch() {
 	if scratchDir != "" && os.Getenv("GOVC_KEEP") == "" {
-		os.RemoveAll(scratchDir)
+		if err := os.RemoveAll(scratchDir); err != nil && os.Getenv("GOVC_DEBUG_SCRATCH") != "" {
+			fmt.Fprintln(os.Stderr, "scratch cleanup:", err)
+		}
 	}
 }
 
